@@ -535,6 +535,14 @@ where
                 tuple_match!(n, it, |t| Box::pin(t.merge()) as BoxS)
             }
         }
+        // one array beyond a two-byte counter, for merge only (regression case)
+        Container::Array if v.len() == 65_537 => {
+            let a: Box<[K; 65_537]> = match v.into_boxed_slice().try_into() {
+                Ok(a) => a,
+                Err(_) => unreachable!(),
+            };
+            big_array_merge(a)
+        }
         Container::Array => array_match!(v, |a| Box::pin(a.merge()) as BoxS),
         #[cfg(feature = "has-alloc")]
         Container::Vec => Box::pin(v.merge()),
@@ -545,6 +553,15 @@ where
         }
         c => panic!("harness: merge over {:?}", c),
     }
+}
+
+#[inline(never)]
+fn big_array_merge<K>(a: Box<[K; 65_537]>) -> BoxS
+where
+    K: Stream<Item = Val> + 'static,
+{
+    use fcs::Merge as _;
+    Box::pin((*a).merge())
 }
 
 fn zip_over<K>(v: Vec<K>, container: Container, n: usize) -> BoxS
